@@ -13,6 +13,8 @@
 //                          operation i of kind k with size n returned cnt bytes that are pattern run [f,t) (nr = number
 //                          of maximal runs, 1 on a faithful stream, 0 if cnt=0), error class cls, Len() after the
 //                          op, and pk = what every still outstanding peeked slice shows NOW (re-read after the op)
+//                          ab = number of bytes of the caller's own backing array (arena of the WriteBinary/Write
+//                          arguments incl. its spare capacity) that no longer hold what the caller put there
 //   Geo{in,out}            (optional, -geo) link-buffer node geometry after the op (stage 2)
 //   End{cp}                cp = what the first `ncp` slices returned by ReadBinary show at the end of the case
 //   Panic{msg}             the code under test panicked (no spec action => rejected)
@@ -22,6 +24,7 @@ package main
 
 import (
 	"bufio"
+	"bytes"
 	"encoding/json"
 	"errors"
 	"flag"
@@ -284,6 +287,7 @@ type Case struct {
 	EndCls  string `json:"endCls"`  // eof | reset
 	TmoAt   int    `json:"tmoAt"`
 	Ncp     int    `json:"ncp"`
+	Arena   int    `json:"arena"` // 1: WriteBinary/Write arguments are consecutive sub-slices (len < cap) of ONE caller array
 	Ops     []Op   `json:"ops"`
 }
 
@@ -362,10 +366,55 @@ func runCase(tr *vtrace.Writer, c *Case, geo bool) {
 	wr := 0  // bytes handed to the writer so far: offset of the next written pattern byte
 	snk := 0 // bytes seen at the sink so far (hint only)
 
+	// The caller's buffers.  arena=1: every WriteBinary/Write argument is the next sub-slice of one backing array, so
+	// it has spare capacity (len < cap) and the following argument lies right behind it, the way one payload is sent
+	// in pieces.  shadow = what the caller itself put into the array (0xA5 where it has put nothing yet).
+	var arena, shadow []byte
+	apos := 0
+	if c.Arena == 1 {
+		total := 0
+		for _, op := range c.Ops {
+			if op.K == "WriteBinary" || op.K == "Write" {
+				total += op.N
+			}
+		}
+		if total > 0 {
+			arena = make([]byte, total+65536)
+			for i := range arena {
+				arena[i] = 0xA5
+			}
+			shadow = append([]byte(nil), arena...)
+		}
+	}
+	callerBuf := func(n int) []byte {
+		if arena == nil {
+			p := make([]byte, n)
+			fillPat(p, wr)
+			return p
+		}
+		p := arena[apos : apos+n] // cap(p) reaches to the end of the arena
+		fillPat(p, wr)
+		copy(shadow[apos:apos+n], p)
+		apos += n
+		return p
+	}
+	altered := func() int {
+		if arena == nil || bytes.Equal(arena, shadow) {
+			return 0
+		}
+		d := 0
+		for i := range arena {
+			if arena[i] != shadow[i] {
+				d++
+			}
+		}
+		return d
+	}
+
 	defer func() {
 		if r := recover(); r != nil {
 			tr.Emit("Panic", vtrace.Rec{"msg": fmt.Sprint(r)})
-			tr.Emit("End", vtrace.Rec{"cp": []pk{}})
+			tr.Emit("End", vtrace.Rec{"cp": []pk{}, "ab": 0})
 		}
 	}()
 
@@ -430,8 +479,7 @@ func runCase(tr *vtrace.Writer, c *Case, geo bool) {
 			fillPat(p, wr)
 			wr += len(p)
 		case "WriteBinary":
-			p := make([]byte, op.N)
-			fillPat(p, wr)
+			p := callerBuf(op.N)
 			n, err := w.WriteBinary(p)
 			cnt, cls = n, classify(err)
 			wr += op.N
@@ -439,8 +487,7 @@ func runCase(tr *vtrace.Writer, c *Case, geo bool) {
 			err := w.Flush()
 			cls = classify(err)
 		case "Write":
-			p := make([]byte, op.N)
-			fillPat(p, wr)
+			p := callerBuf(op.N)
 			n, err := conn.Write(p)
 			cnt, cls = n, classify(err)
 			wr += op.N
@@ -465,7 +512,7 @@ func runCase(tr *vtrace.Writer, c *Case, geo bool) {
 			pks = append(pks, pkOf(o.b, o.from))
 		}
 		tr.Emit("Op", vtrace.Rec{"i": i + 1, "k": op.K, "n": op.N, "cnt": cnt, "f": r.F, "t": r.T, "nr": nr,
-			"cls": cls, "len": ln, "pk": pks})
+			"cls": cls, "len": ln, "pk": pks, "ab": altered()})
 		if geo && sc != nil {
 			tr.Emit("Geo", vtrace.Rec{"in": geoOf(sc.VerifInputNodes()), "out": geoOf(sc.VerifOutputNodes())})
 		}
@@ -474,7 +521,7 @@ func runCase(tr *vtrace.Writer, c *Case, geo bool) {
 	for _, o := range copies {
 		cps = append(cps, pkOf(o.b, o.from))
 	}
-	tr.Emit("End", vtrace.Rec{"cp": cps})
+	tr.Emit("End", vtrace.Rec{"cp": cps, "ab": altered()})
 }
 
 type gnode struct {
@@ -743,7 +790,7 @@ func runGroup(cs []*Case, dir string, geo bool) []byte {
 		return outb
 	}
 	var lines []byte
-	for _, ev := range []map[string]interface{}{caseRec(cs[0]), {"ev": "Crash", "msg": msg}, {"ev": "End", "cp": []pk{}}} {
+	for _, ev := range []map[string]interface{}{caseRec(cs[0]), {"ev": "Crash", "msg": msg}, {"ev": "End", "cp": []pk{}, "ab": 0}} {
 		b, _ := json.Marshal(ev)
 		lines = append(append(lines, b...), '\n')
 	}
